@@ -308,12 +308,44 @@ def run_job(job, seed, tier, workdir, log):
     for w in range(W):
         launch(w, 0, 0)
     crashes = {}
+    hangs = [0]
     while active:
         time.sleep(0.05)
         now = time.time()
         for w in list(active):
             a = active[w]
             rc = a['p'].poll()
+            if rc is None and now <= deadline:
+                # stall watchdog: the same case for longer than single_timeout (x1.5) means a hang (or a pathologically slow case):
+                # decide it now instead of waiting for the job deadline
+                cur = read_crumb(a['crumb'])
+                if cur != a.get('last_idx'):
+                    a['last_idx'], a['last_change'] = cur, now
+                elif cur is not None and now - a.get('last_change', now) > job.single_timeout * 1.5:
+                    a['p'].kill(); a['p'].wait()
+                    collect(a['out'])
+                    del active[w]
+                    rc1, err1 = run_single(job, seed, cur, tiern)
+                    if rc1 == 'timeout':
+                        res['violations'].append(dict(job.ident(), index=cur, clause='hang', detail='case does not terminate within %ds when run alone' % job.single_timeout, witness='(see replay)'))
+                        hangs[0] += 1
+                        if hangs[0] >= 3:
+                            # a job in which cases keep hanging is decided: stop it instead of timing out case after case
+                            for w2 in list(active):
+                                active[w2]['p'].kill(); active[w2]['p'].wait(); collect(active[w2]['out']); del active[w2]
+                            res['inconclusive'].append('job %s stopped after %d hanging cases, its remaining cases were not run' % (job.name, hangs[0]))
+                            break
+                    elif rc1 not in (0, 1):
+                        res['violations'].append(dict(job.ident(), index=cur, clause='crash', detail=crash_signature(err1, rc1), witness=err1[-2500:]))
+                    else:
+                        res['inconclusive'].append('job %s worker %d stalled at index %d for more than %ds (case terminates when run alone)' % (job.name, w, cur, int(job.single_timeout * 1.5)))
+                    res['evaluations'] += max(0, (cur - a['start']) // W)
+                    crashes[w] = crashes.get(w, 0) + (job.max_crashes // 2 + 1 if rc1 == 'timeout' else 1)   # two hangs end a worker
+                    if crashes[w] >= job.max_crashes:
+                        res['inconclusive'].append('job %s worker %d: too many crashing or hanging cases, remaining cases of this worker not run' % (job.name, w))
+                    elif cur + 1 < total:
+                        launch(w, cur + 1, a['gen'] + 1)
+                    continue
             if rc is None:
                 if now > deadline:
                     a['p'].kill(); a['p'].wait()
